@@ -146,6 +146,11 @@ pub fn trace_limits(s: &Search, max_depth: Option<Depth>) {
     }
 }
 
+/// The move orderer (a private module of the search) applied to a given move list: what it hands out, in order
+pub fn order_moves(moves: &[Ply], zkey: ZKey, killers: &[Option<Ply>; super::info::MAX_KILLERS]) -> Vec<Ply> {
+    super::move_orderer::MoveOrderer::new(moves, zkey, killers).collect()
+}
+
 pub fn best_move(s: &Search) -> Option<Ply> {
     s.info.best_move
 }
